@@ -8,7 +8,7 @@ from core import Case
 from pyerr import exc_code
 
 PROP = 'C17'
-COQ_TARGETS = ['theories/PrioFacts.vo']
+COQ_TARGETS = ['theories/PrioFacts.vo', 'theories/PrioHold.vo']
 COQ_IMPORTS = 'From Bac Require Import Base Prio.'
 RULE = ('cases: a history = constructor arguments + a list of ops (write v / relinquish at priority p or without priority, '
         'p also from {0,-1,17,255,300}; clock advance dt) run on a fresh object of one of the 20 ...CmdObject classes, '
@@ -19,8 +19,11 @@ RULE = ('cases: a history = constructor arguments + a list of ops (write v / rel
         'table spanning its range - doubles that are not binary32-exact, extreme/negative integers, 2^32-1, non-ASCII and long strings, '
         'every enumeration value, wildcard dates/times - commanded on each class, both paths; over the wire the decoded slot must be '
         'bit-exactly the commanded value in the PriorityValue alternative of the class datatype); binary classes with minimum on/off times '
-        '0..10 s and clock advances 0..12 s.  non-trivial = at least one accepted command; distinct by (class, path, '
-        'constructor arguments, ops).  direct: the same domains, exhaustive up to length 3 (quick; 4 for BinaryValue) / 4 (thorough; 5 for AnalogValue, BinaryValue) per class.')
+        '0..10 s and clock advances 0..12 s; commands while a hold is running: every sequence of length <= 2 (3 for BinaryValue) over '
+        '{write active/inactive, relinquish} x priorities {3, 8} + clock steps {1, 2} for minimum on/off times in {0,2,3}^2 minus (0,0), and '
+        'longer scenarios (state flipped at priority 1/3/5 during the hold, the holding command relinquished, the override relinquished before/at/after the deadline).  '
+        'non-trivial = at least one accepted command; distinct by (class, path, '
+        'constructor arguments, ops).  direct: the same domains, exhaustive up to length 3 (quick; 4 for BinaryValue) / 4 (thorough; 5 for AnalogValue, BinaryValue) per class; the hold alphabet exhaustively to length 4 (BinaryValue; 3 BinaryOutput) / 5 (4) for all 8 time configurations and both initial states.')
 TRUSTED = ['model coq/theories/Prio.v written by hand after local/object.py:_Commando.__init__/_highest_priority_value/'
            'WriteProperty, MinOnOffTask, and the store-then-monitors tail of object.py:Property.WriteProperty; tie = correspondence',
            'values are compared through a per-datatype table of 4-15 sample values spanning the range of the datatype (codes; floats keyed by float.hex, no NaN / -0.0); the expected PriorityValue alternative per datatype is a table of the harness, not read from the implementation',
@@ -81,9 +84,10 @@ def env():
     doubles = [0.0, 0.1, 1e-50, 12345678.9, 1.5, -1.0 / 3, 1.7976931348623157e308, 5e-324, 3.5e38, -2.5e-10, float('-inf'),
                -20.25, 0.10000000149011612]
     dates = [(255, 255, 255, 255), (120, 1, 1, 3), (255, 12, 31, 255), (99, 255, 15, 255), (121, 12, 31, 5), (0, 1, 1, 1),
-             (254, 13, 32, 7), (124, 14, 33, 255), (124, 2, 34, 255), (255, 255, 255, 1)]
+             (254, 13, 32, 7), (124, 14, 33, 255), (124, 2, 34, 255), (255, 255, 255, 1),
+             (120, 1, 1, 4), (120, 1, 2, 4), (120, 2, 2, 4), (121, 2, 2, 4)]
     times = [(255, 255, 255, 255), (1, 2, 3, 4), (255, 0, 0, 0), (12, 255, 255, 255), (12, 0, 0, 0), (23, 59, 59, 99),
-             (0, 0, 0, 0), (255, 255, 255, 0)]
+             (0, 0, 0, 0), (255, 255, 255, 0), (1, 2, 3, 5), (1, 2, 4, 5), (1, 3, 4, 5), (2, 3, 4, 5)]
     pools = {
         'Real': reals, 'Double': doubles,
         'DoorValue': ['lock', 'unlock', 'pulseUnlock', 'extendedPulseUnlock'],
@@ -91,9 +95,12 @@ def env():
         'BitString': [[], [1], [0, 1], [1, 1, 0], [0] * 8, [1] * 9, [1, 0] * 20, [0] * 7 + [1]],
         'CharacterString': ['', 'a', 'b', 'h\u00e9llo \u20ac', 'hello', 'x' * 40, ' ', 'A' * 5],
         'Date': dates, 'Time': times,
+        # constructed values: neighbours in the table (and the codes 1..3 of the exhaustive sweeps) agree in one component
+        # and differ in the other - 1/2 same date, other time; 2/3 same time, other date
         'DateTime': [DT()] + [DT(date=d, time=t) for d, t in
-                              [(dates[1], times[1]), (dates[2], times[2]), (dates[3], times[3]), (dates[0], times[0]),
-                               (dates[4], times[5]), (dates[6], times[6]), (dates[9], times[7])]],
+                              [(dates[1], times[1]), (dates[1], times[2]), (dates[3], times[2]), (dates[0], times[0]),
+                               (dates[4], times[5]), (dates[6], times[6]), (dates[9], times[7]), (dates[2], times[2]),
+                               (dates[3], times[3]), (dates[3], times[1])]],
         'Integer': [0, -1, 2 ** 31 - 1, -2 ** 31, 1, -5, 70000, 127, -128, 128, 32767, -32768, -32769, 8388607, -8388609],
         'Unsigned': [0, 1, 2 ** 32 - 1, 256, 2, 255, 65535, 65536, 70000, 16777215, 16777216, 2 ** 31],
         'OctetString': [b'', b'\x01', b'ab', b'\x00\xff', bytes(range(40)), b'\x00', b'\xff' * 5],
@@ -472,6 +479,36 @@ def base_history(clsname, path, rng=None):
     return h
 
 
+# minimum on/off times of 0 and > 0 in each direction; the clock steps 1 and 2 reach every deadline exactly, early and late
+TIMED_CONFIGS = [(on, off) for on in (0, 2, 3) for off in (0, 2, 3) if on or off]
+# commands above (3) and below (8) the hold priority 6, both states and relinquish, and two clock steps
+TIMED_ALPHABET = [('c', 3, 0), ('c', 3, 1), ('c', 3, None), ('c', 8, 0), ('c', 8, 1), ('c', 8, None), ('t', 1), ('t', 2)]
+
+
+def timed_history(cn, path, on, off, pv, ops):
+    return {'cls': cn, 'path': path, 'pv': pv, 'dflt': pv, 'on': on, 'off': off, 'ops': list(ops)}
+
+
+def hold_scenarios(cn, on, off):
+    """commands arriving while a hold is running: the state flipped at a higher priority before the minimum time is
+    over, the command that started the hold relinquished during the hold, the override relinquished before / at / after
+    the deadline of the hold, then everything relinquished and the clock run out"""
+    out = []
+    for v in (0, 1):
+        t = (on if v == 1 else off) or 1
+        for flip_at in sorted({0, 1, t - 1}):
+            if flip_at >= t and (on if v == 1 else off):
+                continue
+            for back_at in sorted({flip_at, t - 1, t, t + 1}):
+                if back_at < flip_at:
+                    continue
+                for hi in (1, 3, 5):
+                    ops = [('c', 8, v), ('t', flip_at), ('c', hi, 1 - v), ('c', 8, None), ('t', back_at - flip_at), ('c', hi, None)]
+                    ops += [('t', 1)] * (on + off + 2) + [('c', 10, v), ('t', 1), ('c', 10, None)] + [('t', 1)] * (on + off + 2)
+                    out.append(timed_history(cn, 'direct', on, off, 1 - v, ops))
+    return out
+
+
 def cases(rng, tier):
     env()
     out = []
@@ -530,6 +567,23 @@ def cases(rng, tier):
             h['ops'] = [o for o in random_ops(rng, cn, 40 if path == 'direct' else 25, ticks=True, hot=[3, 5, 6, 7, 8, None])
                         if path == 'direct' or wire_ok(o)]
             out.append(mk_case('minonoff-' + path, h))
+        # (d) commands while a hold is running: every sequence of length <= 2 (3 for BinaryValue and three configurations)
+        # over TIMED_ALPHABET for minimum times 0 / > 0 in each direction, plus the longer hold scenarios
+        for on, off in TIMED_CONFIGS:
+            for pv in (0, 1):
+                hs = [timed_history(cn, 'direct', on, off, pv, seq) for L in range(1, 3)
+                      for seq in itertools.product(TIMED_ALPHABET, repeat=L)]
+                out.append(mk_bundle('hold-exh2(bundle of %d)' % len(hs), hs))
+            if cn == 'BinaryValueCmdObject' and (big or (on, off) in ((2, 0), (0, 2), (2, 3))):
+                for pv in ((0, 1) if big else (rng.choice([0, 1]),)):
+                    for c1 in TIMED_ALPHABET:
+                        hs = [timed_history(cn, 'direct', on, off, pv, (c1,) + seq) for seq in itertools.product(TIMED_ALPHABET, repeat=2)]
+                        out.append(mk_bundle('hold-exh3(bundle of %d)' % len(hs), hs))
+            hs = hold_scenarios(cn, on, off)
+            for k in range(0, len(hs), 12):
+                out.append(mk_bundle('hold-scenarios(bundle of %d)' % len(hs[k:k + 12]), hs[k:k + 12]))
+            hs = [timed_history(cn, 'wire', on, off, pv, seq) for pv in (0, 1) for seq in itertools.product(TIMED_ALPHABET, repeat=1)]
+            out.append(mk_bundle('hold-wire(bundle of %d)' % len(hs), hs))
         # the constructor with and without an explicit present value
         for on, off in itertools.product([None, 0, 4], repeat=2):
             for pv in (None, 0, 1):
@@ -545,7 +599,11 @@ def check_history(h):
     Weakest reading: refused = the call does not succeed (any exception / any non-ack answer) and every observable
     (present value, all slots, pending hold) is as before; for objects with a minimum on/off time > 0, slot 6 belongs
     to the hold mechanism (not checked against user commands), and the hold clause is only evaluated on histories that
-    do not command priority 6 themselves; a state entered with hold time 0 lifts the hold requirements until the next change."""
+    do not command priority 6 themselves.  The hold is tracked from the observations alone: a change of the present value
+    to a state with minimum time T > 0 at instant t starts a hold (state, t + T), replacing one still running; slot 6 must
+    be that state at every observation before t + T and null at the first observation at/after it; with no hold running
+    slot 6 must be null.  A change to a state with minimum time 0 starts nothing and leaves a running hold running
+    (Prio.hold_step is the same function; C17_hold_exact proves the model meets it)."""
     def fail(kind, step, **kw):
         f = {'kind': kind, 'step': step, 'history': h}
         f.update(kw)
@@ -605,9 +663,10 @@ def check_history(h):
                 continue
             if pv != before[0]:                       # a new state was entered at NOW
                 t = on if pv == 1 else off
-                hold = (pv, NOW[0] + t) if t > 0 else 'free'
-            if hold == 'free':
-                continue
+                if t > 0:
+                    hold = (pv, NOW[0] + t)           # replaces a hold that is still running
+                # t == 0: nothing to hold for the new state; a hold that is still running (the state was flipped
+                # at a higher priority before its minimum time was over) runs on to its own deadline
             if hold is None:
                 if slots[5] != -1:
                     return fail('slot6-occupied-without-hold', k, observed=obs)
@@ -641,6 +700,19 @@ def _exh_worker(unit):
         cnt += 1
         f = check_history(h)
         if f is not None and len(fs) < 20:
+            fs.append(f)
+    return cnt, cnt, fs
+
+
+def _timed_worker(unit):
+    """all sequences of length L over TIMED_ALPHABET that start with `prefix`, one binary class with minimum times"""
+    cn, path, on, off, pv, L, prefix = unit
+    env()
+    cnt, fs = 0, []
+    for seq in itertools.product(TIMED_ALPHABET, repeat=L - len(prefix)):
+        cnt += 1
+        f = check_history(timed_history(cn, path, on, off, pv, tuple(prefix) + seq))
+        if f is not None and len(fs) < 5:
             fs.append(f)
     return cnt, cnt, fs
 
@@ -712,6 +784,31 @@ def direct(rng, tier, focus=()):
         failures.extend(fs[:20])
     lap('exhaustive')
     samples.append({'direct': 'exhaustive', 'commands': repr(small_commands('AnalogValueCmdObject'))})
+    # commands while a hold is running: every sequence over TIMED_ALPHABET, minimum times 0 / > 0 in each direction
+    LT = 5 if big else 4                 # BinaryValue; one less for BinaryOutput; after every op of a sequence the
+    units = []                           # predicate is evaluated, so the sequences of full length cover the shorter ones
+    for cn in BINARY:
+        L = LT if cn == 'BinaryValueCmdObject' else LT - 1
+        for on, off in TIMED_CONFIGS:
+            for pv in (0, 1):
+                if L <= 3:
+                    units.append((cn, 'direct', on, off, pv, L, ()))
+                elif L == 4:
+                    units.extend((cn, 'direct', on, off, pv, L, (c,)) for c in TIMED_ALPHABET)
+                else:
+                    units.extend((cn, 'direct', on, off, pv, L, (c, c2)) for c in TIMED_ALPHABET for c2 in TIMED_ALPHABET)
+                if big or cn == 'BinaryValueCmdObject':
+                    units.append((cn, 'wire', on, off, pv, 3 if big else 2, ()))
+    for cnt, nt, fs in _parallel(_timed_worker, units):
+        n += cnt
+        nontriv += nt
+        failures.extend(fs[:5])
+    for cn in BINARY:
+        for on, off in TIMED_CONFIGS:
+            for h in hold_scenarios(cn, on, off):
+                go(h)
+    lap('hold-exh')
+    samples.append({'direct': 'hold exhaustive', 'alphabet': repr(TIMED_ALPHABET), 'configs': repr(TIMED_CONFIGS), 'length': LT})
     # every refused priority on every class, on an object that already holds commands
     for cn in CLASS_NAMES:
         for bp in BAD_PRIOS + [-(2 ** 31), 2 ** 31, 16 + 256]:
@@ -770,10 +867,13 @@ def direct(rng, tier, focus=()):
                     go(h)
     lap('minonoff')
     samples.append({'direct': 'min on/off', 'grid': 'on,off in 0..10, both binary classes'})
+    failures.sort(key=lambda f: len(f['history']['ops']))          # stable: the shortest history of each kind becomes the replay
     return failures, {'evaluations': n, 'distinct_nontrivial': nontriv, 'exhaustive': True,
                       'exhaustive_domain': 'all command sequences of length <= %d (<= %d for %s) over priorities {1,8,16,none} x 3 values x '
-                                           '{write, relinquish}, each of the 20 classes, direct; length <= 2 over the wire (6 classes in quick, all in thorough)'
-                                           % (LMAX, LMAX + 1, ', '.join(long_classes)),
+                                           '{write, relinquish}, each of the 20 classes, direct; length <= 2 over the wire (6 classes in quick, all in thorough); '
+                                           'binary classes with minimum on/off times in {0,2,3}^2 minus (0,0), both initial states: all sequences of length <= %d '
+                                           '(BinaryValue; %d BinaryOutput) over priorities {3,8} x {active, inactive, relinquish} + clock steps {1,2}'
+                                           % (LMAX, LMAX + 1, ', '.join(long_classes), LT, LT - 1),
                       'samples': samples}
 
 
